@@ -128,6 +128,12 @@ func replyID(m p9p.Message) int {
 		return int(v.Count) - 1000
 	case p9p.MessageRopen:
 		return int(v.IOUnit) - 1000
+	case p9p.MessageRcreate:
+		return int(v.IOUnit) - 1000
+	case p9p.MessageRattach:
+		return int(v.Qid.Path) - 1000
+	case p9p.MessageRauth:
+		return int(v.Qid.Path) - 1000
 	case p9p.MessageRwalk:
 		if len(v.Qids) == 1 {
 			return int(v.Qids[0].Path) - 1000
